@@ -498,8 +498,13 @@ def gen_arg(rnd, depth=0):
         else: toks.append(rnd.choice(ARG_ATOMS[:16]))
     return toks
 
+F21_SRC = 'script S {\n  mixarg(FOO "a")\n  mixarg("a" ascii"b", 1)\n}\n'
+
 def gen_C10(rnd, n, tier):
     out = []
+    # the recorded finding F21 stays in the stream: an argument that mixes an inline text with other tokens
+    cfg0 = base_cfg()
+    out.append(Case(compile_line(cfg0, F21_SRC), F21_SRC, cfg0, {"want": ["\tmixarg FOO S_Text_0", "\tmixarg S_Text_0 S_Text_1, 1"], "texts": []}))
     for i in range(n):
         ncmd = rnd.randint(1, 5); stmts = []; want = []
         consts = {}
